@@ -49,6 +49,23 @@ type c19Len struct { // has Len() int only: not what defaultTransport looks for
 
 func (o *c19Len) Len() int { return o.n }
 
+// objects that already have the whole TTransport method set (with their own, different, idea of
+// RemainingBytes): NewDefaultTransport must still wrap them like any other ReadWriter
+type c19Full struct{ c19RW }
+
+func (o *c19Full) Close() error                  { return nil }
+func (o *c19Full) RemainingBytes() uint64        { return 3 }
+func (o *c19Full) Flush(context.Context) error   { return nil }
+func (o *c19Full) Open() error                   { return nil }
+func (o *c19Full) IsOpen() bool                  { return true }
+
+type c19FullReadable struct {
+	c19Full
+	n int
+}
+
+func (o *c19FullReadable) ReadableLen() int { return o.n }
+
 // ---- registry callbacks ----
 var (
 	c19Args = []interface{}{&struct{ a int }{0}, &struct{ a int }{1}, &struct{ a int }{2}, &struct{ a int }{3}}
@@ -251,6 +268,12 @@ func c19Default(cls int, n int64) V {
 	case 2:
 		o := &c19RW{}
 		rw, under = o, o
+	case 5:
+		o := &c19FullReadable{n: int(n)}
+		rw, under = o, &o.c19RW
+	case 6:
+		o := &c19Full{}
+		rw, under = o, &o.c19RW
 	case 3:
 		ubuf = bytes.NewBuffer(make([]byte, int(n)))
 		rw = ubuf
@@ -390,7 +413,7 @@ func init() {
 			}
 			// ---- 3. default transport ----
 			ns := []int64{0, 1, -1, 2, 7, 255, 256, 4096, math.MaxInt32, math.MaxInt32 + 1, math.MinInt32, 1 << 32, 1 << 62, math.MaxInt64, math.MaxInt64 - 1, math.MinInt64, math.MinInt64 + 1, -2}
-			for cls := 0; cls <= 2; cls++ {
+			for _, cls := range []int{0, 1, 2, 5, 6} {
 				for _, v := range ns {
 					g.Add("default", Ls(I(1), I(cls), I64(v)))
 				}
